@@ -1,9 +1,9 @@
 package rules
 
 import (
-	"strings"
 	"go/token"
 	"go/types"
+	"strings"
 
 	"golang.org/x/tools/go/ssa"
 
